@@ -8,6 +8,7 @@
  "specs": {"util/insecure_memzero.c": "contracts/util__insecure_memzero.c.drbg.spec"},
  "expect_loops": ["insecure_memzero_func"],
  "defines": ["VERIF_HALLOC", "HM_DMAX=0", "HM_LOGN=3"],
+ "matrix": {"DR_GEN_PART": [1, 2, 3]},
  "models": ["models/drbg_hmac.c", "models/drbg_os.c"],
  "timeout": 600,
  "assumptions": ["HMAC-SHA256 is an abstract leaf (models/drbg_hmac.c): its conformance is C01's",
@@ -21,6 +22,7 @@ void
 h_generate(void)
 {
 	DRBG_PRE();
+	DRBG_MEMZERO();
 	IN(size_t, buflen);
 	__CPROVER_assume(buflen <= GENERATE_MAXLEN);
 	IN_BYTES(buf, buflen, GENERATE_MAXLEN);
